@@ -201,6 +201,9 @@ func c04Burst(c *lib.Ctx, idx uint64) {
 		}
 		d, ie, pn := detect(buf)
 		n++
+		if n&1023 == 0 {
+			c.Tick()
+		}
 		if pn != "" {
 			c.Violation(buf, "corrupted %s (burst %#x at bit %d): panic: %s", names[fi], mask, p, pn)
 			return false
@@ -600,6 +603,7 @@ func c04LargeBursts(c *lib.Ctx, idx uint64) {
 		}
 		de, ie, pn := detect(buf)
 		n++
+		c.Tick()
 		if pn != "" {
 			c.Violation(buf, "corrupted %s (burst %#x at bit %d): panic: %s", label, mask, p, pn)
 			return
